@@ -301,6 +301,7 @@ def strip_after_doctype(html):
 class Check(PropCheck):
     id = 'C01'
     stream = 'C01'
+    extra_modules = ('AHP.Props.C01Code',)       # AdvancedTag.getStartTag itself, interpreted in Lean, = the hand model's startTagI
     exhaustive_in = ('quick', 'thorough')
     rule = ('documents over ordinary, void, preformatted and raw-text element names with 0-4 attributes (plain, boolean, value-less, '
             'class, style, data-*; values with spaces, both quotes, angle brackets, non-ASCII), text made of plain runs, entity / '
